@@ -1,6 +1,6 @@
 package c02
 
-// Genuine defect of the unchanged tree, found by the first phase of TestConcurrentStress (thorough tier,
+// Genuine defect (repaired in /repo by d8a928b; this test fails if it returns), found by the first phase of TestConcurrentStress (thorough tier,
 // -race, busy machine: "re-read of held snapshot (commits 1..1): Load(1): open .../000002.sst: no such file
 // or directory"), signature C02/stale-release-drops-version-another-snapshot-retained.
 //
@@ -16,9 +16,9 @@ package c02
 // got earlier is evicted as the file of a dead table).
 //
 // The test replays that schedule on one goroutine; the two steps of Release are taken apart by the verif
-// seam version.VerifReleaseInTwoSteps (same statements as Release). Proposed fix:
-// proposed_fix_remove_version_rechecks_reference.diff (removeVersion re-checks the count under the lock
-// that GetSnapshot's Retain runs under).
+// seam version.VerifReleaseInTwoSteps (same statements as Release). Repair (d8a928b, kept here as
+// proposed_fix_remove_version_rechecks_reference.diff): removeVersion re-checks the count under the lock
+// that GetSnapshot's Retain runs under.
 
 import (
 	"fmt"
@@ -38,10 +38,6 @@ import (
 const sigStaleRelease = "C02/stale-release-drops-version-another-snapshot-retained"
 
 func TestRegression_StaleReleaseDropsVersionAnotherSnapshotRetained(t *testing.T) {
-	if ev.Known(sigStaleRelease) {
-		ev.KnownFinding("C02", "Version.Release acts on a stale reference count: a version another snapshot retained in between is dropped from the active versions, the next obsolete-file pass deletes the files of that open snapshot ("+sigStaleRelease+")")
-		return // not skipped: the driver treats a skipped test as inconclusive
-	}
 	kvsim.Register()
 	dir, err := os.MkdirTemp("", "c02g-")
 	if err != nil {
@@ -113,5 +109,5 @@ func TestRegression_StaleReleaseDropsVersionAnotherSnapshotRetained(t *testing.T
 	if !want.Equal(got) {
 		t.Fatalf("reader 2 no longer sees the content at acquisition:%s", kvsim.Diff(want, got))
 	}
-	fmt.Println("reader 2 kept its files")
+	ev.Case("TestRegression_StaleReleaseDropsVersionAnotherSnapshotRetained", "replay", true, nil, map[string]any{"deleted": fmt.Sprint(deleted)})
 }
